@@ -88,3 +88,75 @@ package file
 //@   ensures [C07:exact-once] result1 == nil ==> (forall i, j int :: 0 <= i && i < j && j < len(result0) ==> predKey(i) != predKey(j))
 //@   ensures [C07:exact-complete] result1 == nil ==> (forall k descriptor.Descriptor :: inPreds(s.graph, K(node), k) ==> (exists i int :: 0 <= i && i < len(result0) && predKey(i) == k))
 //@   ensures [C07:closed-only-error] result1 != nil ==> result1 == ErrStoreClosed
+//@
+//@ // ---------------------------------------------------------------- tar extraction (C11)
+//@ // Sanitisation typestate: every file-system mutation of extractTarDirectory goes to the
+//@ // path that resolveRelToBase accepted for this entry; link targets are checked as the OS
+//@ // will resolve them; nothing is written through a symbolic link at the entry's own path.
+//@ import fs "io/fs"
+//@ import os "os"
+//@ pure lexInside(p string) bool = toSlash(cleanOf(p)) != ".." && !hasPrefix(toSlash(cleanOf(p)), "../")
+//@ pure linkResolved(link string, target string) string = isAbs(target) ? target : joined(filepathDir(link), target)
+//@ ghost local rrName string
+//@ ghost local rrErr error
+//@ ghost local rrInfo fs.FileInfo
+//@ ghost local rrK int
+//@ ghost local rrOK(p string) bool
+//@ ghost local rrDir(j int) string
+//@ pure rrNext(path string, k int, last string) string = k == 0 ? filepathDir(path) : filepathDir(last)
+//@ func resolveRelToBase
+//@   entry set rrK = 0
+//@   call os.Lstat set rrName = args.name
+//@   call os.Lstat set rrErr = result1
+//@   call os.Lstat set rrInfo = result0
+//@   loop 0 invariant [chain] rrK >= 0 && dir == rrNext(path, rrK, rrDir(rrK)) && (forall j int :: 1 <= j && j <= rrK ==> rrDir(j) == rrNext(path, j - 1, rrDir(j - 1)) && rrDir(j) != ".")
+//@   loop 0 invariant [result-so-far] path == relOf(isAbs(target) ? baseAbs : baseRel, target) && lexInside(path)
+//@   loop 0 invariant [C11:every-proper-parent-checked] forall j int :: 1 <= j && j <= rrK ==> rrOK(joined(baseAbs, rrDir(j)))
+//@   loop 0 backedge set rrOK(rrName) = (rrErr != nil ? isNotExistErr(rrErr) : bitand(fiMode(rrInfo), 134217728) == 0)
+//@   loop 0 backedge set rrDir(rrK + 1) = dir
+//@   loop 0 backedge set rrK = rrK + 1
+//@   ensures [C11:relative-to-the-matching-base] result1 == nil ==> result0 == relOf(isAbs(target) ? baseAbs : baseRel, target)
+//@   ensures [C11:lexically-inside-base] result1 == nil ==> lexInside(result0)
+//@   ensures [C11:no-symlink-among-parents] result1 == nil ==> rrNext(result0, rrK, rrDir(rrK)) == "." && (forall j int :: 1 <= j && j <= rrK ==> rrDir(j) == rrNext(result0, j - 1, rrDir(j - 1)) && rrDir(j) != "." && rrOK(joined(baseAbs, rrDir(j))))
+//@   modifies alloc, elems[any], elems[string]
+//@
+//@ ghost local elpChecked bool
+//@ func ensureLinkPath
+//@   entry set elpChecked = false
+//@   call resolveRelToBase requires [C11:link-target-checked-as-the-OS-resolves-it] args.target == linkResolved(link, target) && args.baseAbs == baseAbs && args.baseRel == baseRel
+//@   call resolveRelToBase set elpChecked = result1 == nil
+//@   ensures [C11:target-returned-only-when-checked] result1 == nil ==> result0 == target && elpChecked
+//@   modifies alloc, elems[any], elems[string]
+//@
+//@ func removeSymlink
+//@   ensures [C11:link-at-path-removed-or-error] result == nil ==> rsGone
+//@   entry set rsGone = true
+//@   call os.Lstat set rsGone = !(result1 == nil && bitand(fiMode(result0), 134217728) != 0)
+//@   call os.Remove requires [C11:removes-only-the-inspected-path] args.name == path
+//@   call os.Remove set rsGone = result == nil
+//@   modifies alloc
+//@ ghost local rsGone bool
+//@
+//@ ghost local etdRel string
+//@ ghost local etdOK bool
+//@ ghost local etdLinkOK bool
+//@ ghost local etdNoLink bool
+//@ func extractTarDirectory
+//@   loop 0 invariant [objects] tr != nil
+//@   call resolveRelToBase requires [C11:entry-name-checked-against-extraction-dir] args.baseAbs == dirPath && args.baseRel == dirName && args.target == header.Name
+//@   call resolveRelToBase set etdRel = result0
+//@   call resolveRelToBase set etdOK = result1 == nil
+//@   call resolveRelToBase set etdLinkOK = false
+//@   call resolveRelToBase set etdNoLink = false
+//@   call ensureLinkPath requires [C11:link-checked-against-extraction-dir] args.baseAbs == dirPath && args.baseRel == dirName && args.link == filePath && args.target == header.Linkname
+//@   call ensureLinkPath set etdLinkOK = result1 == nil
+//@   call removeSymlink set etdNoLink = result == nil && args.path == filePath
+//@   call writeFile requires [C11:path-sanitised] etdOK && args.path == joined(dirPath, etdRel)
+//@   call writeFile requires [C11:not-written-through-a-symlink] etdNoLink
+//@   call os.MkdirAll requires [C11:path-sanitised] etdOK && args.path == joined(dirPath, etdRel)
+//@   call os.Link requires [C11:path-sanitised] etdOK && etdLinkOK && args.newname == joined(dirPath, etdRel)
+//@   call os.Link requires [C11:link-source-inside-base] args.oldname == linkResolved(filePath, header.Linkname)
+//@   call os.Symlink requires [C11:path-sanitised] etdOK && etdLinkOK && args.newname == joined(dirPath, etdRel) && args.oldname == header.Linkname
+//@   call os.Remove requires [C11:path-sanitised] etdOK && args.name == joined(dirPath, etdRel)
+//@   call os.Chtimes requires [C11:path-sanitised] etdOK && args.name == joined(dirPath, etdRel)
+//@   call os.Chmod requires [C11:path-sanitised] etdOK && args.name == joined(dirPath, etdRel)
